@@ -606,6 +606,28 @@ def r_domain_calls(ck: Checker) -> None:
             ck.add(f"{res.split('.')[-1]}({short(unparse(arg), 40)})", ok, func, call, f"`{short(unparse(call), 90)}`: has_domain {why}",
                    "DomainPredicates raises RuntimeError when no domain can be derived (recursive or choice-dependent conditions): the pass must leave the statement unchanged instead", rule="C03.THROW.domain")
     ck.need(n >= 6, f"calls of the domain generators found ({n})")
+    # the assert in add_domain_rules.replace_domain is triaged with "all(map(have_domain, condition)) held": have_domain
+    # has to look at exactly the atoms replace_domain is applied to - every SymbolicAtom of the literal, at any depth
+    hd = ck.prg.funcs.get(f"{DP}.add_domain_rules.<locals>.have_domain")
+    rd = ck.prg.funcs.get(f"{DP}.add_domain_rules.<locals>.replace_domain")
+    adr = ck.func("dependency:DomainPredicates.add_domain_rules")
+    ck.need(hd is not None and rd is not None, "add_domain_rules has the helpers have_domain and replace_domain")
+    applied = [c for c in resolved_calls(ck.prg, adr, "ngo.utils.ast:transform_ast") if len(c.args) == 3 and unparse(c.args[2]) == "replace_domain"]
+    ck.need(len(applied) == 1 and is_const(applied[0].args[1], "SymbolicAtom"), "replace_domain is applied to every SymbolicAtom of a condition literal")
+    lit_p = hd.params()[0]  # type: ignore[union-attr]
+    loops = [lp for lp in find_nodes(hd.node, lambda x: isinstance(x, ast.For)) if same(unparse(lp.iter), f"collect_ast({lit_p}, 'SymbolicAtom')")]  # type: ignore[union-attr,attr-defined]
+    ok_h = len(loops) == 1
+    detail = f"{len(loops)} loop(s) over collect_ast({lit_p}, 'SymbolicAtom')"
+    if ok_h:
+        lp = loops[0]
+        a = unparse(lp.target)  # type: ignore[attr-defined]
+        ith = ck.interp(hd, Pins.of(vals={f"{a}.symbol.ast_type": "ASTType.Function"}, facts={f"self.has_domain(Predicate({a}.symbol.name, len({a}.symbol.arguments)))": False}))  # type: ignore[arg-type]
+        passes = ith.loop_back.get(id(lp), [])
+        trues = [r for r in returns_of(hd) if not is_const(r.value, False)]  # type: ignore[arg-type]
+        ok_h = not passes and all(enclosing_loop(hd, r) is None and is_const(r.value, True) for r in trues) and bool(trues)  # type: ignore[arg-type]
+        detail = f"an atom without a domain ends the scan with False: {not passes}; `True` only after the scan: {[fmt(r) for r in trues]}"
+    ck.add("have_domain examines every symbolic atom replace_domain will be applied to", ok_h, hd, hd.node, detail,  # type: ignore[arg-type,union-attr]
+           "a test that skips atoms inside conditional literals or aggregates accepts a condition whose rewriting then trips `assert self.has_domain(..)` in replace_domain: every pass that builds DomainPredicates aborts", rule="C03.THROW.domain")
 
 
 def r_containment(ck: Checker) -> None:
